@@ -312,7 +312,7 @@ def correspond(ctx):
             for metric in ("L1", "Linf"):
                 fixed.append({"method": method, "k": k, "cb": "plain", "metric": metric, "pts": grid, "vs": [k * 7919 % (1 << 20)]})
     judge(ctx, binary, fixed, "grid7x7")
-    ncases = 420 if quick else 20000
+    ncases = 420 if quick else 9000
     nmax = 64
     batch = {}
     for n in range(ncases):
@@ -329,7 +329,7 @@ def correspond(ctx):
             judge(ctx, binary, cs[i:i + 600], family)
     # exhaustive k for small N
     small = []
-    for n in range(24 if quick else 400):
+    for n in range(24 if quick else 250):
         family = G.FAMILIES[(n * 5) % len(G.FAMILIES)]
         sp = G.gen_space(r.fork(), r.range(2, 9), family)
         nn = G.size(sp)
@@ -342,7 +342,7 @@ def correspond(ctx):
         judge(ctx, binary, small[i:i + 600], "every-k-small-N")
     # high-volume leg on generic (practically tie-free) data: rare geometric configurations of the pruning bounds.
     # >= 10^5 cover-tree queries in quick; every list is judged by the Lean oracle; L2 = the library's Euclidean distance
-    nvol = 2600 if quick else 40000
+    nvol = 2600 if quick else 20000
     vol = []
     for n in range(nvol):
         rr = r.fork()
